@@ -34,6 +34,12 @@ pub fn check_program(ctx: &mut Ctx, p: &Program) {
         let owned = b.clone().into_owned();
         let mut d = vec![0x5Au8; bl + 8];
         alt.push(("into_owned().write_into(dirty)", owned.write_into(&mut d).map(|n| d[..n].to_vec()).map_err(|e| format!("{e:?}"))));
+        // the same additions with the builder measured / serialised / cloned between them
+        let ob = apply_program_observed(p, &objs)?;
+        let obl = ob.byte_len();
+        let mut d = vec![0xC3u8; obl + 4];
+        alt.push(("observed-between-additions.write_into", ob.write_into(&mut d).and_then(|n| if n == obl { Ok(d[..n].to_vec()) } else { Ok(vec![]) }).map_err(|e| format!("{e:?}"))));
+        alt.push(("observed-between-additions.build", Ok(ob.build())));
         Ok::<_, String>((bytes, bl, has, alt))
     });
     let (bytes, bl, has, alt) = match r {
